@@ -25,11 +25,44 @@ macro_rules
             (try (rename_i heq; (first | rw [hg _ _ _ heq] | rw [if_pos heq] | rw [if_neg heq] | rw [heq]); try dsimp only)) <;>
             mono1))
 
+theorem foldEndS_mono {g g' : Th → World → ForceRes} (hg : FLe g g') {kind upd ctx cells src ended ini y rest w r}
+    (h : foldEndS g kind upd ctx cells src ended ini y rest w = some r) :
+    foldEndS g' kind upd ctx cells src ended ini y rest w = some r := by
+  unfold foldEndS at h ⊢
+  mono1
+
+theorem foldCellS_mono {g g' : Th → World → ForceRes} (hg : FLe g g') {kind upd ctx cells src ended ini pos y rest cell w r}
+    (h : foldCellS g kind upd ctx cells src ended ini pos y rest cell w = some r) :
+    foldCellS g' kind upd ctx cells src ended ini pos y rest cell w = some r := by
+  unfold foldCellS at h ⊢
+  mono1
+
+theorem foldOutS_mono {g g' : Th → World → ForceRes} (hg : FLe g g') {kind upd ctx cells src ended ini pos x yi rest w r}
+    (h : foldOutS g kind upd ctx cells src ended ini pos x yi rest w = some r) :
+    foldOutS g' kind upd ctx cells src ended ini pos x yi rest w = some r := by
+  unfold foldOutS at h ⊢
+  mono1
+
+syntax "mono1f" : tactic
+set_option hygiene false in
+macro_rules
+  | `(tactic| mono1f) => `(tactic|
+      first
+        | exact h
+        | exact hg _ _ _ h
+        | exact foldEndS_mono hg h
+        | exact foldCellS_mono hg h
+        | exact foldOutS_mono hg h
+        | (simp at h; done)
+        | (split at h <;>
+            (try (rename_i heq; (first | rw [hg _ _ _ heq] | rw [if_pos heq] | rw [if_neg heq] | rw [heq]); try dsimp only)) <;>
+            mono1f))
+
 theorem forceStep_mono (D : List T) {g g' : Th → World → ForceRes} (hg : FLe g g')
     {th : Th} {w : World} {r : Step × World} (h : forceStep D g th w = some r) :
     forceStep D g' th w = some r := by
   unfold forceStep at h ⊢
-  mono1
+  mono1f
 
 theorem force_succ (D : List T) (n : Nat) : force D (n + 1) = forceStep D (force D n) := rfl
 
@@ -75,6 +108,44 @@ theorem collectIfOnce_mono {n n'} (hn : NLe n n') {ia i ctx v w r}
   have hm : MLe (fun _ _ _ _ => none) (fun _ _ _ _ => none) := fun _ _ _ _ _ h => h
   mono2
 
+theorem mkMapSrc_mono {n n'} (hn : NLe n n') {a w r}
+    (h : mkMapSrc n a w = some r) : mkMapSrc n' a w = some r := by
+  unfold mkMapSrc at h ⊢
+  have hm : MLe (fun _ _ _ _ => none) (fun _ _ _ _ => none) := fun _ _ _ _ _ h => h
+  mono2
+
+theorem mkMathR_mono {n n'} (hn : NLe n n') {op y b w r}
+    (h : mkMathR n op y b w = some r) : mkMathR n' op y b w = some r := by
+  unfold mkMathR at h ⊢
+  have hm : MLe (fun _ _ _ _ => none) (fun _ _ _ _ => none) := fun _ _ _ _ _ h => h
+  mono2
+
+theorem mkFoldInit_mono {n n'} (hn : NLe n n') {kind upd p ctx src ib w r}
+    (h : mkFoldInit n kind upd p ctx src ib w = some r) : mkFoldInit n' kind upd p ctx src ib w = some r := by
+  unfold mkFoldInit at h ⊢
+  have hm : MLe (fun _ _ _ _ => none) (fun _ _ _ _ => none) := fun _ _ _ _ _ h => h
+  mono2
+
+theorem foldEnd_mono {n n'} (hn : NLe n n') {kind upd ctx cells src ended ini y rest w r}
+    (h : foldEnd n kind upd ctx cells src ended ini y rest w = some r) :
+    foldEnd n' kind upd ctx cells src ended ini y rest w = some r := by
+  unfold foldEnd at h ⊢
+  have hm : MLe (fun _ _ _ _ => none) (fun _ _ _ _ => none) := fun _ _ _ _ _ h => h
+  mono2
+
+theorem foldCell_mono {m m' n n'} (hm : MLe m m') (hn : NLe n n') {kind upd ctx cells src ended ini pos y rest cell w r}
+    (h : foldCell m n kind upd ctx cells src ended ini pos y rest cell w = some r) :
+    foldCell m' n' kind upd ctx cells src ended ini pos y rest cell w = some r := by
+  unfold foldCell at h ⊢
+  mono2
+
+theorem foldOut_mono {n n'} (hn : NLe n n') {kind upd ctx cells src ended ini pos x yi rest w r}
+    (h : foldOut n kind upd ctx cells src ended ini pos x yi rest w = some r) :
+    foldOut n' kind upd ctx cells src ended ini pos x yi rest w = some r := by
+  unfold foldOut at h ⊢
+  have hm : MLe (fun _ _ _ _ => none) (fun _ _ _ _ => none) := fun _ _ _ _ _ h => h
+  mono2
+
 syntax "mono3" : tactic
 set_option hygiene false in
 macro_rules
@@ -84,9 +155,14 @@ macro_rules
         | exact hm _ _ _ _ _ h
         | exact hn _ _ _ h
         | exact mkFlatWith_mono hm hn h
+        | exact mkMathR_mono hn h
+        | exact mkFoldInit_mono hn h
+        | exact foldEnd_mono hn h
+        | exact foldCell_mono hm hn h
+        | exact foldOut_mono hn h
         | (simp at h; done)
         | (split at h <;>
-            (try (rename_i heq; (first | rw [hm _ _ _ _ _ heq] | rw [hn _ _ _ heq] | rw [collectIfOnce_mono hn heq] | rw [if_pos heq] | rw [if_neg heq] | rw [heq]); try dsimp only)) <;>
+            (try (rename_i heq; (first | rw [hm _ _ _ _ _ heq] | rw [hn _ _ _ heq] | rw [collectIfOnce_mono hn heq] | rw [mkMapSrc_mono hn heq] | rw [if_pos heq] | rw [if_neg heq] | rw [heq]); try dsimp only)) <;>
             mono3))
 
 theorem mkStep_mono (D : List T) {m m' n n'} (hm : MLe m m') (hn : NLe n n') {t c v w r}
